@@ -161,6 +161,22 @@ def run(ck, facts, tier):
                         continue
                     top = max(kl, kr, key=lambda k: RANK[k])
                     want = oracle.expected(op, payload(kl, "u"), payload(kr, "v"))
+                    if op == "rem":
+                        # "the same result as the same arithmetic on the contained types", to the letter: the contained `%` itself is evaluated (for two floats the
+                        # built-in exact remainder, which a hand-written truncated-quotient formula is not)
+                        try:
+                            pa, pb = payload(kl, "u"), payload(kr, "v")
+                            if kl == kr == "F64":
+                                inner = pa - cel.func_atom("truncq", pa * pb.inv()) * pb            # what cel gives the built-in f64 `%`
+                                want = {"real": inner}
+                            else:
+                                ctys = [("f64" if k == "F64" else (D1 if k == "Dual" else D2)) for k in (kl, kr)]
+                                fn_ = next(rr["fn"] for rr in facts.all_fns() if rr.get("trait_item") == "std::ops::Rem::rem" and rr.get("sig") == ctys)
+                                inner = cel.Ev(facts).apply_fn(fn_, [pa, pb], 0)
+                                want = dict(inner.fields)
+                        except (Unsupported, StopIteration) as e_:
+                            ck.fail(r3, key, "contained remainder could not be evaluated (%s)" % e_, where)
+                            continue
                     ok = isinstance(v, Sym) and v.tag[:2] == ("ctor", top) and len(v.tag) == 3
                     if ok:
                         x = v.tag[2]
@@ -209,6 +225,8 @@ def run(ck, facts, tier):
                         continue
                     ck.check(r3, key, cel.vkey(v) == cel.vkey(want), "Number comparison for (%s,%s) differs from the contained types' comparison: %s vs %s"
                              % (kl, kr, cel.vfmt(v)[:200], cel.vfmt(want)[:200]), where, sample=cel.vfmt(v)[:120])
+    from rules import pywrap
+    pywrap.run(ck, facts, tier)
     ck.not_decided += ["nothing dynamic is claimed; refusal is by panic! (divergence), as the statement's 'refused rather than computed'"]
     ck.trusted += ["lib/cel.py structural match evaluation", "lib/oracle.py"]
 
